@@ -289,6 +289,12 @@ class Contract:
         try:
             for _label, fml in self._gen(ens):
                 st.assume(fml if isinstance(fml, (SBool, bool)) else mk_bool(V._zb(fml)))
+        except PathEnd:
+            # the callee's postcondition is concretely false here: the path ends -- the reachability guard of this call
+            # site must not silently disappear with it (a caller could otherwise come back "ok" with no obligations left)
+            if check_pre:
+                st.cover_dead(f"{ip.task.name}/reach@after-{f.ref.qualname}:{(site or '').split(':')[-1]}")
+            raise
         finally:
             st.trace = saved_global + st.trace
         if check_pre:
@@ -668,6 +674,10 @@ class VerifyTask:
         res.solver_time = ex.solver_time
         res.queries = ex.queries
         res.obligations = [o.as_dict() | ({"smt2": o.smt2} if o.smt2 else {}) for o in ex.results()]
+        if res.status == "ok" and self.config.shard is None and not any(o["kind"] == "cover" and ("cover@exit" in o["name"] or "cover@raise" in o["name"]) for o in res.obligations):
+            # no explored path reached a normal or exceptional exit: every postcondition is vacuously "proved".
+            # (sharded runs: each shard sees part of the paths only; the merged result is judged in runner._merge_shards)
+            res.obligations.append({"name": f"{self.name}/cover@exit", "kind": "cover", "status": "uncovered", "time": 0.0, "backend": "", "detail": "no explored path reaches an exit of the function", "path": [], "model": None})
         for chk in getattr(self.c, "static_checks", []) or []:
             try:
                 label, ok, detail = chk()
